@@ -288,6 +288,14 @@ func buildOps() []*Op {
 		}})
 	add(&Op{Label: `Clauses(clause.OnConflict{UpdateAll:true})`, Clause: "ONCONFLICT",
 		Apply: func(db *gorm.DB, c *Ctx, v []Val) *gorm.DB { return db.Clauses(clause.OnConflict{UpdateAll: true}) }})
+	// explicit RETURNING: makes the update / delete / create executors take
+	// their query-and-scan branch instead of the plain exec branch
+	add(&Op{Label: `Clauses(clause.Returning{})`, Clause: "RETURNING", Core: true,
+		Apply: func(db *gorm.DB, c *Ctx, v []Val) *gorm.DB { return db.Clauses(clause.Returning{}) }})
+	add(&Op{Label: `Clauses(clause.Returning{Columns:[id,c40]})`, Clause: "RETURNING",
+		Apply: func(db *gorm.DB, c *Ctx, v []Val) *gorm.DB {
+			return db.Clauses(clause.Returning{Columns: []clause.Column{{Name: "id"}, {Name: "c40"}}})
+		}})
 	return ops
 }
 
